@@ -341,8 +341,9 @@ class SymTS:
 class SymIndex:
     """What RunPeriod needs of `target.data.index`: membership, get_loc, len, positional access."""
 
-    def __init__(self, dates):
+    def __init__(self, dates, known_sorted=True):
         self.dates = list(dates)
+        self.known_sorted = known_sorted
 
     def __len__(self):
         return len(self.dates)
@@ -372,6 +373,18 @@ class SymIndex:
         return iter(self.dates)
 
     def searchsorted(self, x, side='left'):
+        if not self.known_sorted:
+            # an index built by the code under test from arbitrary dates: numpy's lower/upper-bound binary search, step by step, so that the
+            # result on unsorted data is the one the real call returns
+            lo, hi = 0, len(self.dates)
+            while lo < hi:
+                mid = lo + ((hi - lo) >> 1)
+                d = self.dates[mid]
+                if bool(d < x) or (side == 'right' and bool(d == x)):
+                    lo = mid + 1
+                else:
+                    hi = mid
+            return lo
         k = 0
         for d in self.dates:
             if bool(d < x) or (side == 'right' and bool(d == x)):
